@@ -1,7 +1,6 @@
 package stdlib
 
 import (
-	"math"
 	"strconv"
 
 	. "rare/pkg/expressions" //lint:ignore ST1001 Legacy
@@ -122,8 +121,17 @@ func kfExpBucket(args []KeyBuilderStage) (KeyBuilderStage, error) {
 		if err != nil {
 			return ErrorNum
 		}
-		logVal := int(math.Log10(float64(val)))
 
-		return strconv.Itoa(int(math.Pow10(logVal)))
+		// largest power of 10 that is <= val (0 for non-positive values), in integer arithmetic
+		bucket := 0
+		if val > 0 {
+			bucket = 1
+			for val >= 10 {
+				val /= 10
+				bucket *= 10
+			}
+		}
+
+		return strconv.Itoa(bucket)
 	}), nil
 }
